@@ -1491,6 +1491,34 @@ pub fn run_iters(words: &[&str]) -> String {
     out
 }
 
+/// hits <kind> <seed> <param> <iters> <objs> <bodies> <pattern,pattern,...>: one run of `iters` executions; for every
+/// pattern the number of executions whose log contains a token starting with it, and the largest number of
+/// multi-choice decisions in one execution (PCT's estimate of k).
+pub fn run_hits(words: &[&str]) -> String {
+    let [_, kind, seed, param, iters, objs, bodies, pats] = words else {
+        return "ERR bad case".to_string();
+    };
+    let mut config = Config::new();
+    config.failure_persistence = FailurePersistence::None;
+    let prog = parse_prog(objs, bodies);
+    let Some((data, fail)) = run_kind(kind, seed.parse().unwrap(), param.parse().unwrap(), iters.parse().unwrap(), config, prog) else {
+        return "ERR bad scheduler".to_string();
+    };
+    let pats: Vec<&str> = pats.split('+').collect();
+    let mut hits = vec![0usize; pats.len()];
+    let mut k = 0usize;
+    for (log, _) in data.iter() {
+        let toks: Vec<&str> = log.split(' ').collect();
+        for (i, p) in pats.iter().enumerate() {
+            if toks.iter().any(|t| t.starts_with(p)) {
+                hits[i] += 1;
+            }
+        }
+        k = k.max(toks.iter().filter(|t| t.starts_with("D[") && t[..t.find(']').unwrap_or(0)].contains(',')).count());
+    }
+    format!("HITS N={} K={} F={} H={}", data.len(), k, fail.unwrap_or("-".into()), hits.iter().map(|h| h.to_string()).collect::<Vec<_>>().join(","))
+}
+
 /// timelimit <kind> <seed> <iters> <limit_ms> <sleep_ms>: a run with `max_time` set whose body takes `sleep_ms` of real
 /// time.  Prints the returned count, the number of body invocations and, for every invocation, the elapsed
 /// milliseconds (since just before `Runner::run`) at its start and end, then the elapsed time at return.
@@ -1533,6 +1561,9 @@ pub fn run_timelimit(words: &[&str]) -> String {
 }
 
 pub fn run(words: &[&str]) -> String {
+    if words.first() == Some(&"hits") {
+        return run_hits(words);
+    }
     if words.first() == Some(&"iters") {
         return run_iters(words);
     }
